@@ -72,6 +72,14 @@ CLAIMED = {
             "Decided by exhausting the path tree of the real functions under z3; holds = no path within the bounds violates.",
             "CrossHair's int/str/tuple models; bool members excluded; ints bounded only where str()/int() render or parse them; "
             "the file layer (lxml/json/yaml text) is covered in C01/C02, not here."),
+    "C10": ("DESIGN.md 5/C10",
+            "Graph level only: for symbolic documents (attributes one character over {a, quote, newline, non-ASCII, blank}, uncertainty incl. 0, Section types "
+            "with and without a sub-class mapping x sub-classing on/off/custom, values of every dtype from pools, one or two Documents, every small tree shape) the "
+            "real rdflib graph built by RDFWriter.convert_to_rdf has a single Hub linking every Document, every object is one node named by its id and typed as "
+            "its class or a declared sub-class, exactly the set attributes are present once, values form an ordered rdf:Seq of typed literals, and "
+            "RDFReader.to_odml on that graph returns equal documents up to sibling order.",
+            "The five serialisations, their parsers, float shortening in turtle/n3 and the string/file entry points are not covered (not applicable part, "
+            "DESIGN.md 5/C10); Literal()/URIRef() realise their argument, hence the small alphabets; open finding F-C01-uncertainty-text."),
     "C11": ("DESIGN.md 5/C11",
             "On every API-built shape over 1 Document + 2 Sections + 2 Properties (symbolic names, int/string/2-tuple values) and every node and flag "
             "combination: clone() is detached, equal in content, shares no mutable object (Sections, Properties, child lists, value lists, inner tuple lists) "
@@ -79,6 +87,14 @@ CLAIMED = {
             "all Properties and original ids and shares nothing; one edit on either side never changes the other; lists returned by / passed to values are "
             "disconnected from the Property.",
             "Independence under edit sequences of any length is concluded from heap disjointness plus one explicit edit step; value text from small pools."),
+    "C12": ("DESIGN.md 5/C12",
+            "For every ordered forest over 1 Document + 3 Sections (names a, ab, abc), every admissible (linking, target) pair, absolute and relative link text, "
+            "target content none / Properties / Properties + sub-Section, own children none / other names / same names with conflicting attributes - and the same "
+            "with an include resolved through the terminology stub to a Section of another document: finalize() keeps the own children, adds exactly one "
+            "content-equal, heap-disjoint copy per target child whose name was free and changes nothing else; with disjoint names clean() restores the "
+            "snapshot, the stored reference still resolves to the target, the dictionary export holds the reference but none of the copies; two cycles.",
+            "terminology.load is an in-memory stub (fetching/caching/threads are C18); names are concrete (posixpath); open finding F-C12-definition-fill; "
+            "chained or nested links are outside the property."),
     "C13": ("DESIGN.md 5/C13",
             "dest.merge(src) against a reference merge on plain descriptions: symbolic child names/types (structure), Property pairs over dtype x value pools x "
             "one attribute pair (unit, uncertainty incl. 0, definition, reference, value_origin), Section definition/reference at two levels, and a conflict of "
@@ -93,6 +109,14 @@ CLAIMED = {
             "key/type/flag combination.",
             "Names are concrete pool members (posixpath is C code): the solver's work is the case split over shapes, names, pairs and arguments, exhaustive "
             "within the bound but not a symbolic generalisation over names."),
+    "C16": ("DESIGN.md 5/C16",
+            "For every parsed element tree / dictionary within the bounds (a valid skeleton in which the children of one node - root, Section or Property - are "
+            "perturbed by up to two symbolic elements: any element name of that level, a differently-cased, unknown or other-level name, text None | symbolic | "
+            "malformed pool member, an XML attribute, a repeated element, a nested object with a clashing name; root tag and version symbolic) XMLReader and "
+            "DictReader, strict and lenient, return a Document or raise ParserException (InvalidVersionException iff another version is stated); the lenient "
+            "readers never raise on a well-rooted input and keep the valid siblings; every returned document satisfies the C03 and C04 predicates.",
+            "Not for every text: lxml.etree.XML, json.loads and yaml.safe_load realise a symbolic string on entry (not applicable part, DESIGN.md 5/C16); "
+            "element trees are lxmlstub elements; text alphabets are finite wherever C code (uuid/int/float/strptime/csv) consumes the text."),
     "C19": ("DESIGN.md 5/C19",
             "On the symbolic documents of C08: the identity snapshot of all objects is equal before and after Validation(obj) / validate() / report(), two runs "
             "report the same multiset of issues; for every history of 2 (quick) / 3 (thorough) actions among default validation, custom validation with a "
